@@ -168,7 +168,15 @@ def file_cases(level, ext):
 OPTFLAGS = {"S": "--single-stream", "I": "--ignore-check", "F": "-f", "Q": "-Q", "K": "-k"}
 
 
-def xz_expect(L, opts, mode, data):
+class Prefix(bytes):
+    """Expected output known only up to this prefix."""
+
+
+def same(got, exp):
+    return got.startswith(exp) if isinstance(exp, Prefix) else got == exp
+
+
+def xz_expect(L, opts, mode, data, T=1):
     """Acceptable (status, stdout/file bytes) alternatives for an xz run, from the library results."""
     lib = L[("I" if "I" in opts else "U") + ("S" if "S" in opts else "")]
     unrec = (0, data) if (mode.startswith("dc") and "F" in opts) else (1, b"")
@@ -176,6 +184,10 @@ def xz_expect(L, opts, mode, data):
         return [unrec], lib
     rc = 1 if lib["err"] else (2 if lib["unsup"] and "Q" not in opts else 0)
     alts = [(rc, lib["out"])]
+    if T > 1 and lib["err"] and lib["out"] != lib["w"]["out"]:
+        # the bytes stored by the failing lzma_code() call depend on slicing inside the library itself (unfiltered BCJ
+        # input); a threaded decode slices differently again, so only the slicing-independent part is demanded
+        alts = [(rc, Prefix(lib["common"]))]
     if lib["heur"]:       # header readable by liblzma but outside what xz(1) accepts as .lzma: either outcome
         alts.append(unrec)
     return alts, lib
@@ -185,7 +197,7 @@ def run_file_case(B, wd, inp_path, ext, data, L, case):
     """Execute one tool case; returns None if the oracle holds, else (what, text)."""
     tool, mode, T, opts = case
     if tool == "xz":
-        alts, lib = xz_expect(L, opts, mode, data)
+        alts, lib = xz_expect(L, opts, mode, data, T)
         base = [B["xz"], "-T%d" % T] + [OPTFLAGS[o] for o in opts]
         if mode == "dc":
             rc, out, err = prun(base + ["-dc", inp_path])
@@ -223,7 +235,7 @@ def run_file_case(B, wd, inp_path, ext, data, L, case):
             if out:
                 return "stdout-not-empty", "xz -d wrote %d bytes to stdout" % len(out)
             for erc, eout in alts:
-                if rc == erc and ((erc == 1 and not created) or (erc != 1 and created and content == eout)):
+                if rc == erc and ((erc == 1 and not created) or (erc != 1 and created and same(content, eout))):
                     return None
             erc, eout = alts[0]
             if rc != erc:
@@ -243,10 +255,10 @@ def run_file_case(B, wd, inp_path, ext, data, L, case):
         if rc < 0:
             return "killed", "signal %d: %s" % (-rc, emsg(err))
         for erc, eout in alts:
-            if rc == erc and out == eout:
+            if rc == erc and same(out, eout):
                 return None
         erc, eout = alts[0]
-        if out != eout:
+        if not same(out, eout):
             cls, txt = describe_diff(out, eout)
             return "stdout-" + cls, txt + " (library ret=%d; exit status %d, expected %d)" % (lib["ret"], rc, erc)
         return "status", "exit status %d, expected %d (library: ret=%d unsupported_check=%d) %s" % (
@@ -271,10 +283,28 @@ def run_file_case(B, wd, inp_path, ext, data, L, case):
 
 
 def lib_all(B, wd, inp_path):
-    jobs = [("xz", "U", inp_path), ("xz", "US", inp_path), ("xz", "I", inp_path), ("xz", "IS", inp_path),
-            ("stream", "-", inp_path), ("alone", "-", inp_path)]
+    """Library results per decoder/flag set with the tools' 8 KiB slicing; ['w'] = the same with the whole input at once."""
+    names = [("U", "xz", "U"), ("US", "xz", "US"), ("I", "xz", "I"), ("IS", "xz", "IS"), ("stream", "stream", ""),
+             ("alone", "alone", "")]
+    jobs = [(m, f + "8", inp_path) for _, m, f in names] + [(m, f, inp_path) for _, m, f in names]
     r = libdec(B, jobs, wd)
-    return {"U": r[0], "US": r[1], "I": r[2], "IS": r[3], "stream": r[4], "alone": r[5]}
+    L = {}
+    for i, (k, _, _) in enumerate(names):
+        L[k] = r[i]
+        L[k]["w"] = r[i + len(names)]
+        a, b = L[k]["out"], L[k]["w"]["out"]
+        L[k]["common"] = a if a == b else a[:first_diff(a, b)]
+    return L
+
+
+def lib_slicing_problem(L):
+    """The two slicings must agree on success/failure, and on the bytes whenever decoding succeeds."""
+    for k, r in L.items():
+        if r["err"] != r["w"]["err"] or r["unsup"] != r["w"]["unsup"]:
+            return k, "library verdict depends on slicing: 8 KiB buffers ret=%d, whole input ret=%d" % (r["ret"], r["w"]["ret"])
+        if not r["err"] and r["out"] != r["w"]["out"]:
+            return k, "library output of a successful decode depends on slicing"
+    return None
 
 
 def case_str(case):
@@ -296,6 +326,12 @@ def files_task(arg):
             with open(inp, "wb") as f:
                 f.write(data)
             L = lib_all(B, wd, inp)
+            sp = lib_slicing_problem(L)
+            if sp:
+                acc.fails.append(("files:lib:slicing:" + sp[0], "%s [%s]: %s" % (name, short(data), sp[1]),
+                                  json.dumps({"part": "files", "name": name, "ext": ext, "input_hex": hexdata, "case": None})))
+            if any(r["out"] != r["w"]["out"] for r in L.values()):
+                acc.stat("inputs_where_failing_call_bytes_depend_on_slicing")
             dig = hashlib.sha1(data).hexdigest()[:12]
             nontrivial = L["U"]["fmt"] != "none" or L["alone"]["ret"] == 1
             for case in file_cases(level, ext):
@@ -595,7 +631,7 @@ def sparse_one(B, wd, layout, tier, acc, only=None):
             if T not in libs:
                 with open(cp, "wb") as f:
                     f.write(fn(comp[T]))
-                libs[T] = libdec(B, [("xz", "U", cp)], wd)[0]
+                libs[T] = libdec(B, [("xz", "U8", cp)], wd)[0]
                 if vname == "ok" and (libs[T]["err"] or libs[T]["out"] != plain):
                     acc.fails.append(("sparse:roundtrip", "library decode of xz -0 output differs from the plaintext, layout %s" % (layout,),
                                       json.dumps({"part": "sparse", "layout": list(layout), "variant": vname, "sink": sink, "T": T})))
@@ -852,8 +888,12 @@ def run(tier):
     finally:
         shutil.rmtree(root, ignore_errors=True)
     ck.assumptions += [
-        "the oracle is liblzma of the same tree (harness/c18_libdec.c, whole input in one call); agreement of the library "
-        "with the format specifications is C03/C05, slicing independence C06, threaded == single-threaded inside the library C07",
+        "the oracle is liblzma of the same tree (harness/c18_libdec.c) driven with the tools' 8 KiB buffers and, as a cross-check, "
+        "with the whole input at once; agreement of the library with the format specifications is C03/C05, slicing independence "
+        "C06, threaded == single-threaded inside the library C07",
+        "bytes stored by the failing lzma_code() call behind a BCJ filter depend on slicing inside liblzma itself (DESIGN.md section 6): "
+        "where the two library slicings differ, xz -T2/-T4 is only required to deliver their common prefix (counter "
+        "inputs_where_failing_call_bytes_depend_on_slicing); single-threaded tools are always compared exactly",
         "xz's choice of decoder is modelled from xz(1): .xz magic, LZIP magic, else a .lzma header with dictionary size 2^n or "
         "2^n+2^(n-1); for .lzma headers liblzma accepts but xz's plausibility test may reject, either outcome is accepted",
         "error messages are not compared; only bytes, st_size, file existence and exit status (0/1/2 for xz as in xz(1) EXIT STATUS "
@@ -884,6 +924,10 @@ def replay(path):
             inp = os.path.join(root, "input." + rp["ext"])
             open(inp, "wb").write(data)
             L = lib_all(B, root, inp)
+            if rp["case"] is None:
+                sp = lib_slicing_problem(L)
+                print("input %s (%s): %s" % (rp["name"], short(data), sp[1] if sp else "library slicings agree"))
+                return 1 if sp else 0
             case = tuple(rp["case"])
             lib = L["stream"] if case[0] == "xzdec" else L["alone"] if case[0] == "lzmadec" else \
                 L[("I" if "I" in case[3] else "U") + ("S" if "S" in case[3] else "")]
